@@ -265,6 +265,23 @@ def run(ck):
                         return False
                 return True
             return pred
+        # the value checked and stored is the value the client sent: no conversion on the way narrows it below 64 bits
+        from sa.prog import int_type as _it
+        narrow = []
+        if td is not None:
+            for kind_, rhs_, site_ in all_defs(f, td):
+                if rhs_ is None:
+                    continue
+                for j in f.walk(rhs_):
+                    jn = f.nodes[j]
+                    if jn['k'] in ('CXXStaticCastExpr', 'CStyleCastExpr', 'CXXFunctionalCastExpr', 'ImplicitCastExpr') and jn.get('ck') in ('IntegralCast', None):
+                        it_ = _it((jn.get('t') or '').replace('const ', ''))
+                        src_ = f.kids(j)[0] if f.kids(j) else None
+                        st_ = _it((f.nodes[src_].get('t') or '').replace('const ', '')) if src_ is not None else None
+                        if it_ is not None and st_ is not None and it_[0] < st_[0] and it_[0] < 64 and 'cv' not in jn:
+                            narrow.append(j)
+        ck.ob('C02.gate', 'C02.gate/STORE/ttl-not-narrowed', not narrow, f.loc(narrow[0]) if narrow else f.loc(i),
+              'the TTL the STORE handler range-checks is the header value itself: no cast narrows it on the way (a 2^32 + 60 s request must be refused, not read as 60 s)')
         gates = [('ttl >= min_manifest_ttl', le_gate(f, from_cfg('min_manifest_ttl'), is_ttl)),
                  ('ttl <= max_manifest_ttl', le_gate(f, is_ttl, from_cfg('max_manifest_ttl')))]
         fails, checked = gate_check(f, [('store_chunk', i)], gates)
